@@ -176,6 +176,14 @@ def gen_doc(rng, deep=False):
                 toks.append(['E', toks[-2][1]])
                 toks.append(['T', rng.choice(WS_TEXTS)])
         toks += [['E', toks[1][1]], ['T', rng.choice(WS_TEXTS)], ['S', 'p', [], False], ['T', rng.choice(WS_TEXTS)], ['E', 'p'], ['E', 'div']]
+    elif r < 0.84:
+        # a preformatted element that is still open when an ancestor's end tag arrives (closed implicitly), then more elements
+        outer = rng.choice(['div', 'li', 'section'])
+        toks = [['S', 'div', [], False], ['S', outer, [], False], ['S', rng.choice(['pre', 'code']), [], False], ['T', rng.choice(WS_TEXTS)]]
+        if rng.random() < 0.5:
+            toks += [['S', 'b', [], False], ['T', rng.choice(WS_TEXTS)]]
+        toks += [['E', outer], ['S', 'p', [], False], ['T', rng.choice(WS_TEXTS)], ['S', 'span', [], False], ['T', rng.choice(WS_TEXTS)], ['E', 'span'], ['E', 'p'],
+                 ['S', 'ul', [], False], ['S', 'li', [], False], ['T', rng.choice(WS_TEXTS)], ['E', 'li'], ['E', 'ul'], ['E', 'div']]
     elif r < 0.9:
         # long inline run
         toks = [['S', 'p', [], False]]
